@@ -40,11 +40,13 @@ static bool send_one(Endpoint &e, const Bytes &m, std::vector<Bytes> &units, boo
     return true;
 }
 
+static size_t g_tls13_pad_block = 0;   // TLS 1.3: record padding block size set on the sender (RFC 8446 5.4), 0 = none
 static void run_script(Tape &t, Ctx &c, int ver, const Suite &su, bool c2s, std::vector<size_t> lens, int op, uint64_t opa, uint64_t opb, uint64_t opc, size_t chunk, const std::string &desc) {
     Session s;
     vfh_entropy_reset(4242 + ver * 100 + su.id); vfh_clock_set_ms(1000000);
     if (!setup(s, ver, su, c2s, 1)) { c.count("setup-failed"); VF_FAIL("harness-handshake-failed", "could not establish %s", desc.c_str()); }
     const size_t HDR = s.dtls ? 13 : 5;
+    if (g_tls13_pad_block && ver == TLS13) { s.snd->sel(); if (matrixSslSetTls13BlockPadding(s.snd->ssl, g_tls13_pad_block) < 0) VF_FAIL("harness-padding-refused", "%s", desc.c_str()); c.count(fmt("tls13-pad-block:%zu", g_tls13_pad_block)); }
     // --- material for reflection / parallel-session splices
     Bytes reflect, parallel;
     if (op == OP_REFLECT) { std::vector<Bytes> u; if (send_one(*s.rcv, msg_bytes(77, 40), u, s.dtls) && !u.empty()) { reflect = u[0];
@@ -146,8 +148,9 @@ static void prop(Tape &t, Ctx &c) {
     int op = (int) t.below(OP_N); if (is_dtls(ver) && op == OP_CUT_TAIL) op = OP_DROP;
     uint64_t a = t.u32(), b = t.u32(), cc = t.u64();
     size_t chunk = t.chance(1, 2) ? (size_t) -1 : (size_t) t.pick(std::vector<int>{ 1, 2, 5, 13, 64, 1000, 16389 });
+    g_tls13_pad_block = (ver == TLS13 && t.chance(1, 3)) ? (size_t) t.pick(std::vector<int>{ 16, 64, 255, 256, 257, 512, 1024, 4096 }) : 0;
     std::string ls; for (auto l : lens) ls += std::to_string(l) + ",";
-    std::string desc = fmt("%s %s %s lens=[%s] op=%s a=%llu b=%llu chunk=%zd", ver_name(ver), su.name, c2s ? "c->s" : "s->c", ls.c_str(), op_name[op], (unsigned long long) a, (unsigned long long) b, (ssize_t) chunk);
+    std::string desc = fmt("%s %s %s lens=[%s] op=%s a=%llu b=%llu chunk=%zd pad=%zu", ver_name(ver), su.name, c2s ? "c->s" : "s->c", ls.c_str(), op_name[op], (unsigned long long) a, (unsigned long long) b, (ssize_t) chunk, g_tls13_pad_block);
     c.sample(desc); if (c.verbose) fprintf(stderr, "case: %s\n", desc.c_str());
     c.count(std::string("ver:") + ver_name(ver));
     run_script(t, c, ver, su, c2s, lens, op, a, b, cc, chunk, desc);
